@@ -203,3 +203,39 @@ def addr_neg(job):
             r += '+children'
         out.append(r)
     return ' '.join(out)
+
+
+def ecrun(job):
+    """(version, ec mapping as dict possibly incomplete/duplicated) -> build a message through the API and observe its delimiters"""
+    from hl7apy.core import Message, Element
+    from hl7apy.parser import parse_message
+    v, ec = job
+    try:
+        m = Message('ADT_A01', version=v, encoding_chars=dict(ec), validation_level=vlib.level(False))
+    except Exception as e:  # noqa
+        return 'exc ' + vlib.exc_name(e)
+    try:
+        C, S, R = ec['COMPONENT'], ec['SUBCOMPONENT'], ec['REPETITION']
+        m.msh.msh_7 = '20200101'
+        m.msh.msh_9 = 'ADT' + C + 'A01' + C + 'ADT_A01'
+        m.msh.msh_10 = '1'
+        m.pid.pid_3 = 'a' + C + 'b' + S + 'c'                    # through a not-yet-existing PID (traversal child)
+        m.pid.pid_5 = 'x' + C + 'y'
+        m.nk1 = 'NK1' + ec['FIELD'] * 2 + 'n' + C + 'm' + R + 'o' + S + 'p'      # a whole segment, with a repetition
+        m.add_segment('PV1').pv1_2 = 'I'
+        er7 = m.to_er7()
+        got = m.encoding_chars
+        gs = got['FIELD'] + got['COMPONENT'] + got['SUBCOMPONENT'] + got['REPETITION'] + got['ESCAPE'] + got.get('TRUNCATION', '')
+
+        def desc(e):
+            for c in e.children:
+                yield c
+                if hasattr(c, 'children'):
+                    yield from desc(c)
+        d = all(x.encoding_chars == got for x in desc(m))
+        p = parse_message(er7, validation_level=vlib.level(False))
+        pe = p.encoding_chars == got and p.to_er7() == er7
+        ml = m.to_mllp() == '\x0b' + er7 + '\r\x1c\r'
+        return 'ok %s %s D%d P%d M%d' % (vlib.hexs(er7), vlib.hexs(gs), d, pe, ml)
+    except Exception as e:  # noqa
+        return 'exc2 ' + vlib.exc_name(e)
